@@ -102,10 +102,41 @@ def handle (req : Json) : Except String Json := do
         let bprobs ← ratList (fieldD opj "bprobs" (Json.arr #[]))
         let losses := corralLosses bacts a r p
         pure [("lam", ratToJson (omdLambda c.ps c.etas losses)),
+              ("halted", Json.bool (omdHalted c.ps c.etas losses)),
               ("losses", ofList ratToJson losses),
               ("feedback", ofList fbToJson (corralFeedback c.importance bacts bprobs a r p))]
       | _ => pure []
     pure (obj ([("out", outToJson o), ("state", corralToJson c')] ++ extra))
+  | "nested_learn" =>
+    -- one `learn` of a depth-2 tower: a Corral whose base learners are plain learners or Corrals over plain learners
+    let dummy : Leaf := { L := { kind := .random, rng := 0 }, val := fun _ _ => 0 }
+    let parseInner (j : Json) : Except String (CNode Leaf) := do
+      let mis ← (← arr (fieldD j "mis" (Json.arr #[]))).mapM ratPair
+      let c ← parseCorral (← field j "state")
+      pure { mis := mis, c := c, lastActs := ← natList (← field j "lastActs"), lastProbs := ← ratList (← field j "lastProbs"),
+             bases := List.replicate c.ps.length dummy }
+    let nodej ← field req "node"
+    let bases ← (← arr (← field nodej "bases")).mapM (fun (b : Json) => do
+      match b.getObjVal? "state" with
+      | .ok _ => pure ((Sum.inr (← parseInner b)) : (tower flDouble 1).σ)
+      | .error _ => pure ((Sum.inl dummy) : (tower flDouble 1).σ))
+    let top : CNode (tower flDouble 1).σ :=
+      { mis := ← (← arr (fieldD nodej "mis" (Json.arr #[]))).mapM ratPair, c := ← parseCorral (← field nodej "state"),
+        lastActs := ← natList (← field nodej "lastActs"), lastProbs := ← ratList (← field nodej "lastProbs"), bases := bases }
+    let res := (tower flDouble 2).learn (Sum.inr top) (← nat (← field req "a")) (← ratOfJson (← field req "r")) (← ratOfJson (← field req "p"))
+    match res with
+    | .error e => pure (obj [("err", Json.str (errName e))])
+    | .ok (Sum.inl _) => throw "impossible"
+    | .ok (Sum.inr top') =>
+      let inner := top'.bases.map (fun (b : (tower flDouble 1).σ) =>
+        match b with
+        | Sum.inl _ => Json.null
+        | Sum.inr n => corralToJson n.c)
+      pure (obj [("state", corralToJson top'.c), ("inner", Json.arr inner.toArray)])
+  | "omdF" =>
+    match omdF flDouble 3000 (← ratList (← field req "ps")) (← ratList (← field req "etas")) (← ratList (← field req "losses")) with
+    | none => pure (obj [("err", Json.str "TypeError")])
+    | some (ws, halted) => pure (obj [("ps", ofList ratToJson ws), ("halted", Json.bool halted)])
   | "fl" =>
     pure (obj [("fl", ofList ratToJson ((← ratList (← field req "xs")).map flDouble))])
   | _ => throw s!"unknown kind {kind}"
